@@ -454,6 +454,8 @@ type vcProp struct {
 	// QuickDeep names universes that are additionally explored to depth 4 (graph mode, from the
 	// empty base) in the quick tier.
 	QuickDeep []string
+	// QuickBases overrides, per universe, the base states explored in the quick tier.
+	QuickBases map[string][]string
 	// After is an extra, property-specific sub-check (run once, before the explorations).
 	After func(x *vcRun)
 }
